@@ -162,6 +162,12 @@ fn main() {
             add_case(&mut st, Ctor::New(base.clone()), vec![(pos as i64, -1)], "overwrite_each_pos_new");
             add_case(&mut st, Ctor::FromIter(base.clone()), vec![(pos as i64, -1), (12, 7)], "overwrite_each_pos_from_iter");
         }
+        for pos in 0..n {
+            // the same map built by n inserts into the empty map, then every position overwritten in turn
+            let mut ops = base.clone();
+            ops.push((pos as i64, -1));
+            add_case(&mut st, Ctor::Empty, ops, "overwrite_each_pos_inserts");
+        }
         add_case(&mut st, Ctor::New(base.clone()), vec![(11, 1), (12, 2), (10, 3)], "grow_from_new");
         add_case(&mut st, Ctor::Empty, base.clone(), "grow_from_empty");
     }
@@ -298,6 +304,8 @@ mod state {
         Add(String, usize, usize, f64),
         Rt(String, usize, usize, f64),
         Ag(String, usize, usize, f64),
+        /// the same add n times (a route of n edges)
+        AddN(String, usize, usize, f64, usize),
         GetF(String),
         GetI(String),
         GetU(String),
@@ -364,6 +372,7 @@ mod state {
             Op::Add(n, f, u, x) => json!(["add", n, f, u, fj(*x), x]),
             Op::Rt(n, f, u, x) => json!(["rt", n, f, u, fj(*x), x]),
             Op::Ag(n, f, u, x) => json!(["ag", n, f, u, fj(*x), x]),
+            Op::AddN(n, f, u, x, k) => json!(["addn", n, f, u, fj(*x), k, x]),
             Op::GetF(n) => json!(["getf", n]),
             Op::GetI(n) => json!(["geti", n]),
             Op::GetU(n) => json!(["getu", n]),
@@ -387,6 +396,7 @@ mod state {
             "add" => Op::Add(n, us(2), us(3), jf(&v[4])),
             "rt" => Op::Rt(n, us(2), us(3), jf(&v[4])),
             "ag" => Op::Ag(n, us(2), us(3), jf(&v[4])),
+            "addn" => Op::AddN(n, us(2), us(3), jf(&v[4]), us(5)),
             "getf" => Op::GetF(n),
             "geti" => Op::GetI(n),
             "getu" => Op::GetU(n),
@@ -484,6 +494,7 @@ mod state {
             Op::Add(n, f, u, x) => format!("OAdd {} {} {}", coq_string(n), coq_uq(*f, *u), coq_f64(*x)),
             Op::Rt(n, f, u, x) => format!("ORt {} {} {}", coq_string(n), coq_uq(*f, *u), coq_f64(*x)),
             Op::Ag(n, f, u, x) => format!("OAg {} {} {}", coq_string(n), coq_uq(*f, *u), coq_f64(*x)),
+            Op::AddN(n, f, u, x, k) => format!("OAddN {} {} {} {}", coq_string(n), coq_uq(*f, *u), coq_f64(*x), coq_nat(*k)),
             Op::GetF(n) => format!("OGetF {}", coq_string(n)),
             Op::GetI(n) => format!("OGetI {}", coq_string(n)),
             Op::GetU(n) => format!("OGetU {}", coq_string(n)),
@@ -621,12 +632,53 @@ mod state {
                 }
             }
         }
+        // what each feature IS in the built model: kind and unit / custom type, label and codec
+        let kinds: Vec<String> = sm
+            .iter()
+            .map(|(_, f)| match f {
+                StateFeature::Distance { distance_unit, .. } => {
+                    format!("distance:{}", DIST.iter().find(|(u, _)| u == distance_unit).map(|x| x.1).unwrap_or("?"))
+                }
+                StateFeature::Time { time_unit, .. } => format!("time:{}", TIME.iter().find(|(u, _)| u == time_unit).map(|x| x.1).unwrap_or("?")),
+                StateFeature::Energy { energy_unit, .. } => {
+                    format!("energy:{}", ENERGY.iter().find(|(u, _)| u == energy_unit).map(|x| x.1).unwrap_or("?"))
+                }
+                StateFeature::Custom { r#type, unit, format } => format!(
+                    "custom:{}/{}/{}",
+                    r#type,
+                    unit,
+                    match format {
+                        CustomFeatureFormat::FloatingPoint { .. } => "f",
+                        CustomFeatureFormat::SignedInteger { .. } => "i",
+                        CustomFeatureFormat::UnsignedInteger { .. } => "u",
+                        CustomFeatureFormat::Boolean { .. } => "b",
+                    }
+                ),
+            })
+            .collect();
+        // ... and what serialize_state_model and the unit getters say about it
+        for (n, f) in sm.iter() {
+            let j = &ser[n];
+            let ok = match f {
+                StateFeature::Distance { distance_unit, .. } => {
+                    f.get_distance_unit().ok() == Some(*distance_unit) && j.get("distance_unit") == serde_json::to_value(distance_unit).ok().as_ref()
+                }
+                StateFeature::Time { time_unit, .. } => f.get_time_unit().ok() == Some(*time_unit) && j.get("time_unit") == serde_json::to_value(time_unit).ok().as_ref(),
+                StateFeature::Energy { energy_unit, .. } => {
+                    f.get_energy_unit().ok() == Some(*energy_unit) && j.get("energy_unit") == serde_json::to_value(energy_unit).ok().as_ref()
+                }
+                StateFeature::Custom { unit, .. } => j.get("unit").and_then(|x| x.as_str()) == Some(unit.as_str()),
+            };
+            if !ok {
+                extra += &format!(" INCONSISTENT(unit of {})", n);
+            }
+        }
         let init_s = match &init {
             Ok(st) => format!("Ok {}", show_state(st)),
             Err(c) => format!("Err {}", c),
         };
         (
-            format!("R=Ok len={} names=[{}] idx=[{}] init={}{}", sm.len(), names.join(","), idx.join(","), init_s, extra),
+            format!("R=Ok len={} names=[{}] kinds=[{}] idx=[{}] init={}{}", sm.len(), names.join(","), kinds.join(","), idx.join(","), init_s, extra),
             init,
         )
     }
@@ -727,6 +779,12 @@ mod state {
                 let y0 = get_u(sm, st, n, *f, *u)?;
                 add_u(sm, st, n, *f, *u, *x)?;
                 Val::FF(y0, get_u(sm, st, n, *f, *u)?)
+            }
+            Op::AddN(n, f, u, x, k) => {
+                for _ in 0..*k {
+                    add_u(sm, st, n, *f, *u, *x)?;
+                }
+                Val::None
             }
             Op::GetF(n) => Val::F(sm.get_custom_f64(st, n)?),
             Op::GetI(n) => Val::Z(sm.get_custom_i64(st, n)? as i128),
@@ -1151,11 +1209,13 @@ mod state {
                 (Some(Feat::Unit(fam, _, _)), false) => {
                     let u = r.below(fam_units(*fam) as u64) as usize;
                     let x = gen_value(r);
-                    match r.below(5) {
+                    match r.below(7) {
                         0 => Op::Get(name, *fam, u),
                         1 => Op::Set(name, *fam, u, x),
-                        2 => Op::Add(name, *fam, u, x),
+                        2 => Op::Add(name, *fam, u, if r.chance(1, 4) { 0.0 } else { x }),
                         3 => Op::Rt(name, *fam, u, x),
+                        4 => Op::AddN(name, *fam, u, if r.chance(1, 4) { 0.0 } else { x }, *r.pick(&[2usize, 10, 50, 200, 500])),
+                        5 => Op::Ag(name, *fam, u, if r.chance(1, 6) { 0.0 } else { x }),
                         _ => Op::Ag(name, *fam, u, x),
                     }
                 }
@@ -1202,6 +1262,11 @@ mod state {
                     let other = (u + 1 + i) % fam_units(*fam);
                     ops.push(Op::Rt(n.clone(), *fam, other, 2.5 + i as f64));
                     ops.push(Op::Ag(n.clone(), *fam, *u, 0.5));
+                    if i < 3 {
+                        ops.push(Op::Add(n.clone(), *fam, other, 0.0));
+                        ops.push(Op::AddN(n.clone(), *fam, other, 0.25, 50 + 150 * (i % 4)));
+                        ops.push(Op::Get(n.clone(), *fam, *u));
+                    }
                 }
                 Feat::Custom(_, _, Fmt::F(_)) => {
                     ops.push(Op::SetF(n.clone(), 55.5));
@@ -1469,6 +1534,52 @@ mod state {
         }
     }
 
+    /// overrides in another unit than the model's with non-zero initial values, read in both units; long runs of adds in a
+    /// unit other than the feature's (zero and non-zero increments)
+    fn boundary3(st: &mut Stream) {
+        let case = |cfg: Vec<(String, Feat)>, tm: Vec<(String, Feat)>, am: Vec<(String, Feat)>, user: User| Case { cfg, tm, am, user, ops: vec![] };
+        let tm = vec![(s("distance"), d(1, 1.5)), (s("time"), t(0, 0.25)), (s("energy_liquid"), e(0, 2.0))];
+        for (du, tu, eu) in [(2usize, 1usize, 2usize), (0, 2, 1), (4, 3, 2), (3, 1, 1)] {
+            let mut c = case(
+                vec![(s("odo"), d(0, 7.0))],
+                tm.clone(),
+                vec![],
+                User::Some(vec![(s("distance"), d(du, 10.0)), (s("time"), t(tu, 30.0)), (s("energy_liquid"), e(eu, 4.5))]),
+            );
+            c.ops = vec![
+                Op::Get(s("distance"), 0, du),
+                Op::Get(s("distance"), 0, 1),
+                Op::Get(s("time"), 1, tu),
+                Op::Get(s("time"), 1, 0),
+                Op::Get(s("energy_liquid"), 2, eu),
+                Op::Get(s("energy_liquid"), 2, 0),
+                Op::Get(s("odo"), 0, 0),
+            ];
+            add_case(st, c, "override_other_unit_nonzero_initial");
+        }
+        for (n, dx) in [(50usize, 0.1f64), (200, 0.1), (500, 0.1), (50, 0.0), (500, 0.0), (500, 12.5)] {
+            let mut c = case(
+                vec![],
+                vec![(s("distance"), d(1, 0.0)), (s("time"), t(1, 0.0)), (s("energy_liquid"), e(2, 0.0))],
+                vec![],
+                User::Some(vec![(s("distance"), d(2, 3.0)), (s("time"), t(0, 1.0)), (s("energy_liquid"), e(0, 2.0))]),
+            );
+            c.ops = vec![
+                Op::AddN(s("distance"), 0, 1, dx, n),
+                Op::Get(s("distance"), 0, 2),
+                Op::Get(s("distance"), 0, 1),
+                Op::AddN(s("time"), 1, 2, dx * 60.0, n),
+                Op::Get(s("time"), 1, 0),
+                Op::AddN(s("energy_liquid"), 2, 2, dx, n),
+                Op::Get(s("energy_liquid"), 2, 0),
+                Op::Add(s("distance"), 0, 4, 0.0),
+                Op::Ag(s("distance"), 0, 0, 0.0),
+                Op::Ag(s("time"), 1, 3, 0.0),
+            ];
+            add_case(st, c, "many_adds_in_another_unit");
+        }
+    }
+
     /// a follow-up query on the same application: the same names with other definitions, or something else entirely
     fn follow_up(r: &mut Rng, first: &Case) -> Case {
         let mut c = first.clone();
@@ -1602,6 +1713,7 @@ mod state {
         }
         boundary(&mut st);
         boundary2(&mut st);
+        boundary3(&mut st);
         let mut rng = Rng::new(a.seed ^ 0x5717_A7E5);
         while st.next_id() < a.n {
             let mut r = rng.fork();
